@@ -16,6 +16,7 @@ from pbsym.models.assoc import AssocDict
 from harness.C14 import ref_match
 
 PROPERTY = 'C10'
+TECHNIQUE = 'CrossHair/z3 symbolic execution of the three cassettes\' lookups with symbolic category texts, metadata kinds and limits against a reference matcher'
 FUNCTIONS = ['playback/tape_cassettes/in_memory/in_memory_tape_cassette.py::InMemoryTapeCassette.iter_recording_ids',
              'playback/tape_cassettes/in_memory/in_memory_tape_cassette.py::InMemoryTapeCassette.extract_recording_category',
              'playback/tape_cassettes/file_based/file_based_tape_cassette.py::FileBasedTapeCassette.iter_recording_ids',
